@@ -724,6 +724,15 @@ ENTRIES += [
 ]
 
 ENTRIES += [
+    # ---------------------------------------------------------------- C02.7 the reset state's observation lies inside the declared space (default configuration)
+    M("C02-pendulum-initial-speed-beyond-bound", "C02", "C02.7", (PEN, "        high = jnp.array([jnp.pi, 1.0])\n        state = jr.uniform(", "        high = jnp.array([jnp.pi, 10.0])\n        state = jr.uniform(")),
+    V("C02-v-pendulum-initial-speed-within-bound", "C02", (PEN, "        high = jnp.array([jnp.pi, 1.0])\n        state = jr.uniform(", "        high = jnp.array([jnp.pi, 2.0])\n        state = jr.uniform(")),
+    M("C02-mountain-car-initial-left-of-track", "C02", "C02.7", (MC, "minval=-0.6, maxval=-0.4", "minval=-1.6, maxval=-0.4")),
+    M("C02-acrobot-initial-velocity-range", "C02", "C02.7", (ACR, "minval=-0.1, maxval=0.1", "minval=-0.1, maxval=50.0")),
+    V("C02-v-acrobot-initial-positional-shape", "C02", (ACR, "y=jr.uniform(key, shape=(4,), minval=-0.1, maxval=0.1)", "y=jr.uniform(key, (4,), minval=-0.1, maxval=0.1)")),
+]
+
+ENTRIES += [
     # ---------------------------------------------------------------- later additions
     M("C15-sac-bounds-swapped", "C15", "C15.3", (PS, "                high=self.action_space.high,\n                low=self.action_space.low,\n            )\n        else:", "                high=self.action_space.low,\n                low=self.action_space.high,\n            )\n        else:")),
     M("C13-flatten-wrong-size", "C13", "C13.5", (WTO, "shape=(int(jnp.asarray(self.env.observation_space.flat_size)),)", "shape=(int(jnp.asarray(self.env.action_space.flat_size)),)")),
